@@ -1,7 +1,7 @@
 # checks.py - registry of harness parts per property (read by ./check).
 # part: src, variant (see flags_for in ./check), name, args, tier_args{tier:[...]}, tiers (default both), budget{tier:s}
 
-def P(src, variant, name, args=None, tiers=('quick', 'thorough'), tier_args=None, budget=None, libs=None):
+def P(src, variant, name, args=None, tiers=('quick', 'thorough'), tier_args=None, budget=None, libs=None, objs=None):
     d = {'src': src, 'variant': variant, 'name': name, 'args': list(args or []), 'tiers': tuple(tiers)}
     if tier_args:
         d['tier_args'] = tier_args
@@ -9,10 +9,24 @@ def P(src, variant, name, args=None, tiers=('quick', 'thorough'), tier_args=None
         d['budget'] = budget
     if libs:
         d['libs'] = libs
+    if objs:
+        d['objs'] = objs
     return d
 
 
 CHECKS = {
+    'C17': {
+        'engine': 'sched',
+        'rule': 'preemption-bounded schedule exploration with race monitor',
+        'parts': [
+            P('props/C17.cpp', 'clangg', 'schedules', objs=[{'src': 'props/C17_body.cpp', 'variant': 'cov'}, {'src': 'engine/sched/sched_rt.cpp', 'variant': 'clangg'}],
+              libs=['-Wl,--wrap=__cxa_guard_acquire', '-Wl,--wrap=__cxa_guard_release'],
+              tier_args={'quick': ['--preemptions', '1', '--preemptions3', '1', '--seqdepth', '3'], 'thorough': ['--preemptions', '2', '--preemptions3', '1', '--seqdepth', '4']}),
+            P('props/C17_tsan.cpp', 'tsan', 'free-running-tsan', objs=[{'src': 'props/C17_body.cpp', 'variant': 'tsan'}],
+              tier_args={'quick': ['--reps', '20'], 'thorough': ['--reps', '200']}),
+        ],
+        'floor': {'quick': 20, 'thorough': 20},
+    },
     'C03': {
         'engine': 'langx',
         'rule': 'bounded-exhaustive strings through the escaper and every printing tag position',
